@@ -586,7 +586,11 @@ def judge_history(pool, history, refs, scoped=None):
             failed_before = [h for h, o in zip(history[:i], got[:i]) if o[0] != "ok"]
             kind = f"{ref[0]}->{out[0]}"
             cause = "after_failure" if failed_before else ("repeat" if step in history[:i] else "after_success")
-            leak = scoped_leak_class(scoped, [h[1] for h in history[:i] if h[0] != "redefine"], step[1])
+            if (kind == "ok->ok" and len(out) > 2 and len(ref) > 2 and out[2] != ref[2]
+                    and sorted(out[2].split(",")) == sorted(ref[2].split(","))):
+                leak = ".function_order"   # same functions in the module, in a different order
+            else:
+                leak = scoped_leak_class(scoped, [h[1] for h in history[:i] if h[0] != "redefine"], step[1])
             return (f"history_dependent.{kind}.{cause}{leak}",
                     f"step {i} {step} gave\n  {str(out)[:700]}\nbut in a fresh session it gives\n  {str(ref)[:700]}\nhistory: {history}")
     return None
@@ -697,7 +701,11 @@ def worker(ctx):
     ctx.notes["scoped_section"] = {"spec": scoped, "classes": sorted(scoped_classes(scoped))}
     ops = OPS + (["emulate"] if ctx.params.get("emulate") else [])
     ref_ops = OPS
+    if os.environ.get("C11_DEBUG"):
+        open("/tmp/c11exp/debug.log", "a").write(f"[c11 shard {ctx.shard}] pool ready at {ctx.elapsed():.1f}s\n")
     refs = shared_references(ctx, pool, ref_ops, all_defs)
+    if os.environ.get("C11_DEBUG"):
+        open("/tmp/c11exp/debug.log", "a").write(f"[c11 shard {ctx.shard}] refs ready at {ctx.elapsed():.1f}s\n")
     if refs is None:
         return
     if ctx.params.get("emulate"):
